@@ -440,14 +440,14 @@ def step (elem : Bool) (st : St) (w : List String) : St × String :=
         | some nblk, some esz, some (bytes, _) =>
           if ¬ isWin ∨ esz = 0 ∨ nblk > 64 ∨ esz > 4096 ∨ bytes.length ≠ nblk * esz then bad
           else
-            -- what lies behind the window is scratch space: `k ≥ 1` written blocks use it up (the rest stays) or the
-            -- array ends with the window
+            -- what lies behind the window is scratch space: the written blocks use it up (the rest stays) or the
+            -- array ends with the window (moved to the front / private copy of the window)
             let tail := st.tails.getD h 0
             let tailOf := fun (m' : State) => match m'.win h, bufOf m' h with
               | some w, some x => x.used - (w.off + w.len)
               | _, _ => 0
             let alts := ((List.range (nblk + 1)).flatMap fun k =>
-              ((if k = 0 then [tail] else [0, tail - k * esz].eraseDups).map fun t' =>
+              ([0, tail - k * esz].eraseDups.map fun t' =>
                 okAlt st h (Vec.append v (Vec.blocks bytes k esz)) s!"n{k}t{t'}")) ++ [refAlt st]
             let (st', line) := finish elem st (sliceWrite m h nblk esz bytes) (fun r m' => s!"n{r}t{tailOf m'}") (fun r _ => toString r) alts
             ({ st' with tails := (st.tails ++ List.replicate (st.nh - st.tails.length) 0).set h (tailOf st'.m) }, line)
